@@ -426,6 +426,13 @@ def band_rules(run, db):
         import re as _re
         return set(_re.findall(r'[A-Za-z_][A-Za-z0-9_]*', r.key()))
 
+    def _cmps(p):
+        if p.kind == 'cmp':
+            return [p]
+        if p.kind == 'const':
+            return []
+        return [c_ for a_ in p.args for c_ in _cmps(a_)]
+
     def ev(p, subst, positive):
         """exists-azimuth truth of the mask at one radius: comparisons that do not involve the radius are free"""
         if p.kind == 'const':
@@ -478,6 +485,116 @@ def band_rules(run, db):
     run.check(not bad, 'C18.band', fk.qual, 'ring band', 'the mask of a keystone segment contains the interior of its ring and at most one of the two boundary radii (half-open band), on each of %d paths' % len(judged),
               'the mask of a keystone segment contains BOTH r = %s and r = %s%s: with radial_gap == 0 a sample exactly on the radius shared by two rings belongs to a segment of each ring (two segments claim one sample)'
               % ((bad[0][3].key(), bad[0][4].key(), '' if bad[0][0] else ' / misses its interior') if bad else ('', '', '')), fk.loc(ring))
+
+    # ---- the angular sector of a segment --------------------------------------------------------------------------------------------------
+    # The azimuth grid holds angles in (-pi, pi]; a segment spans lo < theta < hi with hi possibly beyond +pi.  The code touches lo, hi and
+    # the grid only through comparisons and shifts by 2 pi, so its result depends only on how lo, hi, pi, hi - 2 pi and the sample's angle
+    # are ordered: one representative per ordering decides it.  The pass over the loop is interpreted again with the angle of the segment
+    # and the number of segments set to a representative of each regime (sector below +pi, straddling the cut, wholly beyond it), every
+    # branch is then decided, and the mask (a predicate over radius and azimuth) is evaluated at 48 azimuths strictly between the
+    # multiples of pi/24, at the mid radius of the band: a sample belongs to the sector iff lo < t + 2 pi k < hi for some k.
+    TH = None
+    for n in walk_no_nested(fk.node):
+        if isinstance(n, ast.Assign) and isinstance(n.value, ast.Call):
+            fn = ast.unparse(n.value.func)
+            if fn.endswith('cart_to_polar') and isinstance(n.targets[0], ast.Tuple) and len(n.targets[0].elts) == 2 and isinstance(n.targets[0].elts[1], ast.Name):
+                TH = n.targets[0].elts[1].id
+            elif fn.endswith('arctan2') and isinstance(n.targets[0], ast.Name):
+                TH = n.targets[0].id
+    if TH is None:
+        raise AnalysisError('keystone aperture: the azimuth grid (cart_to_polar / arctan2 of the coordinate grids) was not found')
+    inner_loops = [st for st in ast.walk(ring) if isinstance(st, ast.For) and st is not ring and MASKS in appended(st) and isinstance(st.target, ast.Name)]
+    if len(inner_loops) != 1:
+        raise AnalysisError('keystone aperture: the loop over the segments of a ring was not found')
+    ANG = inner_loops[0].target.id
+    ang_atoms = set()
+    for m in preds:
+        if isinstance(m, Pred):
+            for c_ in _cmps(m):
+                at = _atoms(c_.args[1])
+                if TH in at:
+                    ang_atoms |= at
+    others = ang_atoms - {TH, ANG, 'pi', 'I'}
+    if ANG not in ang_atoms or len(others) != 1:
+        raise AnalysisError('keystone aperture: the angular extent of a segment mask is not a function of the segment angle and one count (%s)' % sorted(ang_atoms))
+    NSEG = others.pop()
+    F = __import__('fractions').Fraction
+
+    class SDomain(BDomain):
+        regime = {}
+
+        def loop(self, node, frame):
+            if isinstance(node, ast.While):
+                return True
+            for leaf in ast.walk(node.target):
+                if isinstance(leaf, ast.Name) and isinstance(leaf.ctx, ast.Store):
+                    frame.env[leaf.id] = self.regime[leaf.id]() if leaf.id in self.regime else self.sym(leaf.id)
+            try:
+                self.interp.exec_block(node.body, frame)
+            except (_Break, _Continue):
+                pass
+            return True
+
+        def compare(self, op, a, b, node):
+            r_ = BDomain.compare(self, op, a, b, node)
+            if r_ is None and not isinstance(a, Pred) and not isinstance(b, Pred):
+                ra, rb = self.rat(a), self.rat(b)
+                if ra is not None and rb is not None:
+                    d = ra - rb
+                    if d.den.is_const() and d.num.t and all(m_ and all(a_ == 'pi' for a_, _ in m_) for m_ in d.num.t) and len({c_ > 0 for c_ in d.num.t.values()}) == 1:
+                        # a sum of positive powers of pi with coefficients of one sign has that sign
+                        sg = (1 if list(d.num.t.values())[0] > 0 else -1) * (1 if d.den.const_value() > 0 else -1)
+                        import operator
+                        return {ast.Eq: operator.eq, ast.NotEq: operator.ne, ast.Lt: operator.lt, ast.LtE: operator.le, ast.Gt: operator.gt, ast.GtE: operator.ge}[type(op)](sg, 0)
+            return r_
+    n_sector = 0
+    for nseg, c_lo, what in ((4, F(-1, 4), 'below +pi'), (4, F(1, 2), 'ending at +pi'), (4, F(3, 4), 'straddling the cut'), (4, F(1), 'starting at +pi'), (4, F(5, 4), 'beyond +pi'),
+                             (3, F(2, 3), 'straddling the cut'), (3, F(-1), 'starting at -pi'), (8, F(7, 8), 'straddling the cut'), (8, F(13, 8), 'beyond +pi')):
+        sdom = SDomain()
+        sdom._coord(TH)
+        sit = install_pi(Interp(db, sdom))
+        sit.MAX_PATHS = 4000
+        sdom.regime = {ANG: (lambda c_lo=c_lo, sdom=sdom: sdom.lift(Rat(sdom.R.atom('pi')) * c_lo)), NSEG: (lambda nseg=nseg: Const(nseg))}
+        kw = {p_: (Tup([], 'list') if p_ in lists else (sdom.regime[p_]() if p_ in sdom.regime else sdom.sym(p_))) for p_ in params}
+        res = [p_ for p_ in sit.run(lf, kwargs=lambda: dict(kw)) if p_.outcome == 'return']
+        masks = []
+        for p_ in res:
+            lst = p_.value.items[0]
+            if isinstance(lst, Tup):
+                masks += [m_ for m_ in lst.items]
+        label = 'sector of %d per ring from %s pi (%s)' % (nseg, c_lo, what)
+        if len(masks) != 1 or not isinstance(masks[0], Pred):
+            raise AnalysisError('keystone aperture, %s: expected one segment mask that is a predicate over the grids, got %r' % (label, masks[:2]))
+        m = masks[0]
+        thr = {}
+        for c_ in radial_cmps(m):
+            d = c_.args[1]
+            d0, d1 = d.subs({RAD: zero}), d.subs({RAD: one})
+            k = d1 - d0
+            if not k.is_zero():
+                t_ = (zero - d0) / k
+                thr[t_.key()] = t_
+        if len(thr) != 2:
+            raise AnalysisError('keystone aperture, %s: the mask does not have two boundary radii' % label)
+        a, b = list(thr.values())
+        positive = ((_atoms(a) | _atoms(b)) - {RAD}) | {'pi'}
+        lo_, hi_ = c_lo, c_lo + F(2, nseg)
+        wrong = []
+        undecided = 0
+        for j in range(48):
+            t = F(-1) + F(2 * j + 1, 48)
+            want = any(lo_ < t + 2 * k_ < hi_ for k_ in (-1, 0, 1, 2))
+            got = eval_pred(m, {RAD: (a + b) / 2, TH: Rat(sdom.R.atom('pi')) * t}, positive)
+            if got is None:
+                undecided += 1
+            elif got != want:
+                wrong.append((t, want, got))
+        if undecided:
+            raise AnalysisError('keystone aperture, %s: the mask %s is not decided at %d of 48 azimuths' % (label, m.key()[:160], undecided))
+        n_sector += 1
+        run.check(not wrong, 'C18.sector', fk.qual, label, '%s: the mask holds exactly the azimuths t in (-pi, pi] with lo < t + 2 pi k < hi, at 48 azimuths between the multiples of pi/24' % label,
+                  '%s (lo = %s pi, hi = %s pi): at azimuth %s pi the mask is %s, the sector %s it (%d of 48 azimuths differ): samples of the segment between lo and +pi, or beyond the cut, are lost or gained'
+                  % ((label, lo_, hi_, wrong[0][0], 'set' if wrong[0][2] else 'clear', 'contains' if wrong[0][1] else 'does not contain', len(wrong)) if wrong else (label, lo_, hi_, '', '', '', 0)), fk.loc(inner_loops[0]))
 
 
 def mask_memo_rules(run, db):
@@ -1267,7 +1384,9 @@ def _rest_of_check(run, db, fh, fk, fc, unp, hrole, krole):
     run.group(mask_memo_rules, run, db)
     run.group(separable_rules, run, db)
     run.rule('C18.band', 'keystone ring bands are half-open in the radius (no sample on a shared ring radius belongs to two rings)')
+    run.rule('C18.sector', 'keystone sectors: the angular mask of a segment holds exactly the azimuths of its sector, for a representative of every ordering of lo, hi, +pi and the branch cut')
     run.group(band_rules, run, db)
+    run.require_instances('C18.sector', 9)
     run.require_instances('C18.ids', 4)
     run.rule('C18.boundary', 'geometric primitives (circle, annulus, offset circle, rectangle, rotated ellipse, spider, regular polygon vertices) equal their analytic inequalities as formulas')
     run.group(boundary_rules, run, db)
